@@ -270,7 +270,7 @@ def null_bare_styles(sx, m):
 
 
 @harness('C18', params=['div', 'boom-then-first'], functions=FUNCS[:3],
-         bounds={'history': 'two consecutive calls on one NullServer (and the same two requests on the wire): arguments '
+         bounds={'history': 'two (thorough: three) consecutive calls on one NullServer (and the same two requests on the wire): arguments '
                             'integers -3..3, so the first call may raise a Fault and the second succeed, or the reverse; '
                             'positional or keyword invocation per call'})
 def null_call_sequences(sx, m):
@@ -278,11 +278,11 @@ def null_call_sequences(sx, m):
     exactly as on the wire"""
     CAP.clear()
     ok = []
-    for step in range(2):
+    for step in range(3 if sx.tier == 'thorough' else 2):
         a = sx.int('a%d' % step, -3, 3)
         b = sx.int('b%d' % step, -3, 3)
         style = sx.choose('style%d' % step, ['positional', 'keyword'])
-        if m == 'div' or step == 1:
+        if m == 'div' or step >= 1:
             name = 'div' if m == 'div' else 'first'
             nargs, nres = null_call(name, a, b) if style == 'positional' else null_call(name, a=a, b=b)
             wargs, wres = wire_call(sx, name, {'a': a, 'b': b})
